@@ -6,6 +6,7 @@ import RV.Driver.C13
 import RV.Driver.C19
 import RV.Driver.C20
 import RV.Driver.C07
+import RV.Driver.C15
 open RV.Driver
 
 def dispatch (prop op : String) (args : List String) (impl : String) : Verdict :=
@@ -24,6 +25,8 @@ def dispatch (prop op : String) (args : List String) (impl : String) : Verdict :
   | "C20" => c20 op args impl
   | "C07" => c07 op args impl
   | "C06" => c06 op args impl
+  | "C15" => c15 op args impl
+  | "C16" => c16 op args impl
   | _ => bad s!"prop:{prop}"
 
 /-- a line is `id \t prop \t op \t arg… \t => \t impl` -/
